@@ -43,6 +43,11 @@ Definition group_private (h : hash) (l2_key alg_z : bytes) (private_key_length_b
 (* FFC DH: public value and shared secret; the shared secret keeps the byte length of the field *)
 Definition dh_public (p g x : Z) : Z := g ^ x mod p.
 Definition dh_shared (p key_length peer_public x : Z) : bytes := I2OSP key_length (peer_public ^ x mod p).
+(* [SP800-56A] 5.6.2.3.1 FFC partial public-key validation: 2 <= y <= p - 2 (0, 1 and p - 1 generate subgroups of order
+   at most 2: the shared secret would be known without any private key).  The receiver refuses other values (repair of
+   D16), so agreement is stated for valid public values. *)
+Definition dh_pub_valid (p v : Z) : Prop := 1 < v < p - 1.
+Definition dh_pub_validb (p v : Z) : bool := (1 <? v) && (v <? p - 1).
 Definition kek_dh (h : hash) (p key_length peer_public x : Z) : bytes :=
   kek_of_shared h SHA256 (dh_shared p key_length peer_public x).
 
